@@ -105,6 +105,15 @@ def _checks(u, log, M, pat, entries, p, weighted):
         cl.append(('is_complete <=> every pair adjacent', bool(ic) == all(adj(i, j) for i in range(p) for j in range(i + 1, p))))
     for S in I.subsets(I.universe(pat)):
         r = ok('induced_subgraph', log.call(u, 'induced_subgraph', set(S), M))
+        if len(S) >= 2:
+            # the node set given as a one-shot iterator / tuple / list (not only as a set)
+            for Sarg in (iter(sorted(S)), tuple(sorted(S, reverse=True))):
+                try:
+                    r2 = u.induced_subgraph(Sarg, M)
+                    same = r is not None and r2.shape == r.shape and all(bool(r2[i, j] == r[i, j]) for i in range(p) for j in range(p))
+                except Exception:
+                    same = False
+                cl.append(('induced_subgraph gives the same answer for S given as an iterator / tuple', same))
         if r is not None:
             good = r.shape == (p, p)
             cl.append(('induced_subgraph shape', good))
@@ -284,6 +293,14 @@ def replay(rec):
         if bool(u.is_complete(P.copy())) != all(adj(i, j) for i in range(p) for j in range(i + 1, p)):
             bad.append('is_complete')
         for S in I.subsets(I.universe([[1 if P[i][j] != 0 else 0 for j in range(p)] for i in range(p)])):
+            if len(S) >= 2:
+                ra = u.induced_subgraph(set(S), P.copy())
+                for Sarg in (iter(sorted(S)), tuple(sorted(S, reverse=True))):
+                    try:
+                        if not numpy.array_equal(u.induced_subgraph(Sarg, P.copy()), ra):
+                            bad.append('induced_subgraph differs for S given as an iterator / tuple')
+                    except Exception as ex:
+                        bad.append('induced_subgraph raised %s for S given as an iterator / tuple' % type(ex).__name__)
             r = u.induced_subgraph(set(S), P.copy())
             for i in range(p):
                 for j in range(p):
